@@ -5,7 +5,7 @@ import torch
 from hypothesis import strategies as st
 from torch import nn
 
-from .. import brownian_tools, sdes
+from .. import brownian_tools, core, sdes
 from ..core import Fail, Result
 
 ID = "C02"
@@ -92,7 +92,7 @@ def _exact_case(draw, tier):
             methods.append("milstein+grad_free")
     return {"kind": "exact", "spec": spec, "method": draw(st.sampled_from(methods)),
             "h": draw(st.sampled_from([0.5, 0.1, 0.013, 2.0 ** -7])), "t0": draw(st.sampled_from([0.0, 0.7, -0.3])),
-            "seed": draw(st.integers(0, 2 ** 31 - 1))}
+            "seed": draw(st.integers(0, 2 ** 31 - 1)), "ctx": draw(st.sampled_from(list(core.GRAD_CTXS)))}
 
 
 def strategy(tier):
@@ -127,7 +127,23 @@ def enumerate_cases(tier):
         rnd = random.Random(seed * 8009 + idx)
         spec = {"sde_type": "stratonovich", "noise_type": "general", "d": d, "m": m, "batch": 2, "hidden": 3,
                 "seed": rnd.randrange(2 ** 31), "tdep": True, "fscale": 1.0, "gscale": 0.7, "dtype": "float64"}
-        yield {"kind": "exact", "spec": spec, "method": "log_ode", "h": 0.1, "t0": 0.3, "seed": rnd.randrange(2 ** 31)}
+        yield {"kind": "exact", "spec": spec, "method": "log_ode", "h": 0.1, "t0": 0.3, "seed": rnd.randrange(2 ** 31),
+               "ctx": core.GRAD_CTXS[idx % 3]}
+    # Euler / derivative Milstein / log-ODE against their formulas in each autograd context a caller may be in (the
+    # derivative-based steps differentiate the diffusion internally, whatever the surrounding context)
+    for nt in ("diagonal", "scalar", "additive", "general"):
+        for sde_type in ("ito", "stratonovich"):
+            ms = (["euler"] if sde_type == "ito" else []) + ([] if nt == "general" else ["milstein"]) + \
+                (["log_ode"] if sde_type == "stratonovich" and nt != "diagonal" else [])
+            for method in ms:
+                for ctx in core.GRAD_CTXS:
+                    idx += 1
+                    rnd = random.Random(seed * 8009 + idx)
+                    spec = {"sde_type": sde_type, "noise_type": nt, "d": 2, "m": 2 if nt != "scalar" else 1, "batch": 2,
+                            "hidden": 3, "seed": rnd.randrange(2 ** 31), "tdep": True, "fscale": 1.0, "gscale": 0.7,
+                            "dtype": "float64"}
+                    yield {"kind": "exact", "spec": spec, "method": method, "h": 0.1, "t0": 0.3,
+                           "seed": rnd.randrange(2 ** 31), "ctx": ctx}
 
 
 def run_case(case):
@@ -240,6 +256,34 @@ def _run_taylor(case):
     lx = [-k * math.log(2) for k in ks[half:]]
     checks = 0
     fail = None
+    # "as h -> 0" does not stop at the end of the ladder: for steps of 3e-8 ... 1e-11 (what an adaptive controller or a clipped
+    # last step produces) the residual must keep shrinking like h^(p + 1/2 - margin) from its value at the finest ladder point,
+    # down to rounding level. (Every term of the expansion is still far above rounding there: g'g dW^2 ~ h.)
+    for h_nom in (5e-8, 1e-9, 1e-11):
+        t1 = t0 + h_nom
+        h = float(t1 - t0)
+        dW = math.sqrt(h) * XI
+        U = h ** 1.5 * (XI / 2 + ZE / math.sqrt(12))
+        A = torch.zeros(B, 1, 1, dtype=torch.float64)
+        stub = brownian_tools.make_stub((B, 1), torch.float64, combo["levy"], lambda ta, tb: (dW, U, A))
+        solver = cls(sde=base_sde.ForwardSDE(sde), bm=stub, dt=case.get("nominal_dt", 0.37), adaptive=False, rtol=1e-3,
+                     atol=1e-3, dt_min=1e-5, options=dict(combo["options"]))
+        with torch.no_grad():
+            y1, _ = solver.step(t0, t1, y0, solver.init_extra_solver_state(t0, y0))
+        I11 = 0.5 * (dW ** 2 - h)
+        I111 = 0.5 * (dW ** 2 / 3 - h) * dW
+        T = y0 + coef["a"] * h + coef["b"] * dW + coef["L1b"] * I11 + coef["L1a"] * U + coef["L0b"] * (dW * h - U) + \
+            coef["L0a"] * h * h / 2 + coef["L1L1b"] * I111
+        R = (y1 - T).reshape(-1)
+        r_tiny = float(torch.sqrt((Wt * R ** 2).sum())) if bool(torch.isfinite(R).all()) else float("inf")
+        bound = 10.0 * rms[-1] * (h / 2.0 ** -ks[-1]) ** (p + 0.5 - 0.15) + 1e3 * 2.2e-16 * max(1.0, abs(case["y0"]))
+        checks += 1
+        if not r_tiny <= bound:
+            fail = Fail("tiny_step",
+                        f"{label}: RMS of (step - Ito-Taylor 1.5) is {r_tiny:.3e} at h={h:.3e}; it was {rms[-1]:.3e} at "
+                        f"h=2^-{ks[-1]} and must shrink like h^{p + 0.35:.2f} (bound {bound:.3e}); f={fx}, g={gx}, "
+                        f"(t,y)=({case['t0']},{case['y0']})", sig)
+            break
     s_rms = s_mean = None
 
     def grows(vals, expo):
@@ -249,7 +293,7 @@ def _run_taylor(case):
         r = [v / (2.0 ** -k) ** expo for k, v in zip(ks, vals)]
         return max(r[-third:]) > 2.0 * max(r[:third])
 
-    if max(rms[half:]) > 1e-13:
+    if fail is None and max(rms[half:]) > 1e-13:
         s_rms = _slope(lx, [math.log(max(e, 1e-300)) for e in rms[half:]])
         checks += 1
         if not s_rms >= p + 0.5 - 0.15 and grows(rms, p + 0.5 - 0.15):
@@ -295,9 +339,14 @@ def _run_exact(case):
     solver = cls(sde=base_sde.ForwardSDE(sde), bm=stub, dt=0.37, adaptive=False, rtol=1e-3, atol=1e-3, dt_min=1e-5,
                  options={"grad_free": True} if case["method"].endswith("+grad_free") else {})
     gbuf_before = sde.gbuf.clone()
+    with core.grad_ctx(case.get("ctx")):
+        # inside a solve the state and the times are tensors made in the caller's context (inference tensors under
+        # torch.inference_mode): copies made here are
+        ya, ta, tb = y0.clone(), t0.clone(), t0 + h
+        y1, _ = solver.step(ta, tb, ya, ())
+        y1b, _ = solver.step(ta, tb, ya, ())              # the same step again: a step must not change the SDE it is given
+        y1, y1b = y1.detach(), y1b.detach()
     with torch.no_grad():
-        y1, _ = solver.step(t0, t0 + h, y0, ())
-        y1b, _ = solver.step(t0, t0 + h, y0, ())          # the same step again: a step must not change the SDE it is given
         f = sde.f(t0, y0)
         g = gbuf_before if spec.get("gstored") else sde.g(t0, y0)
     if spec.get("gstored") and (not torch.equal(sde.gbuf, gbuf_before) or not torch.equal(y1, y1b)):
@@ -327,5 +376,6 @@ def _run_exact(case):
     if not e <= 1e-12:
         fail = Fail("textbook_formula", f"{spec['sde_type']}/{nt}/{case['method']} step differs from its textbook formula "
                                         f"(explicit Jacobians) by {e:.3e} (d={d}, m={m}, h={h})", sig)
-    return Result(nontrivial=d >= 2, labels=[f"exact:{spec['sde_type']}/{nt}/{case['method']}"], checks=1, fail=fail,
+    return Result(nontrivial=d >= 2, labels=[f"exact:{spec['sde_type']}/{nt}/{case['method']}",
+                                             f"exact:ctx={case.get('ctx') or 'no_grad'}"], checks=1, fail=fail,
                   metrics={"exact_clause_err": e})
